@@ -30,6 +30,8 @@ def make_message(kind, n, salt=0):
     if kind == "bin-compressible":
         b = (bytes([salt & 0xFF]) + b"\x00\x01\x02\x03" * (n // 4 + 1))[:n]
         return 2, b, b
+    if kind == "bin-incompressible-again":
+        salt = 0            # the very bytes of an earlier incompressible message (compressible only through the shared context)
     # incompressible: LCG bytes
     x = 12345 + salt
     out = bytearray()
@@ -199,6 +201,9 @@ def run_frag(role, ext, msg, splits, gaps, second=True):
                     if g == "ping":
                         data += s.frame(True, 9, b"p%d" % i)
                         pings.append(b"p%d" % i)
+                    elif g == "ping125":         # the largest control payload RFC 6455 allows
+                        data += s.frame(True, 9, (b"P%d" % i) * 62 + b"!")
+                        pings.append((b"P%d" % i) * 62 + b"!")
                     elif g == "pong":
                         data += s.frame(True, 10, b"q%d" % i)
                 data += s.frame(i == len(pieces) - 1, opcode if i == 0 else 0, piece, rsv=rsv if i == 0 else 0)
@@ -249,7 +254,7 @@ class C14(Check):
             "both / client only / server only / none; max_window_bits 9-15 on either side) x compression options "
             "(default, level 1, level 9 + mem_level 1), the harness being an independent RFC 6455/7692 peer; the first "
             "frame is also cut at every header byte and two payload positions; (b) every fragmentation of 3 messages "
-            "into <= 3 frames x {nothing, ping, pong} in every gap x compressed or not x both roles, followed by a "
+            "into <= 3 frames x {nothing, ping, pong, ping with a 125-byte payload} in every gap x compressed or not x both roles, followed by a "
             "second message; state = one session; non-trivial = sessions with deflate, a cut, or fragmentation")
     claim = ("In every session the application on the Tornado side receives exactly the messages the peer sent (type, "
              "content, order), the peer decodes exactly the echoed messages with its own codec and the negotiated "
@@ -278,6 +283,9 @@ class C14(Check):
             if tier == "quick":
                 small = [(k, n) for k in KINDS for n in (0, 126)] + [("bin-compressible", 65536)]
             seqs = singles + [list(p) for p in itertools.product(small, repeat=2)]
+            # an incompressible message, then the same bytes again (and once more after a text message)
+            seqs += [[("bin-incompressible", n), ("bin-incompressible-again", n)] for n in (126, 1000)]
+            seqs += [[("bin-incompressible", 300), ("text", 20), ("bin-incompressible-again", 300)]]
             if tier == "thorough":
                 tiny = [(k, n) for k in KINDS for n in (1, 127)]
                 seqs += [list(p) for p in itertools.product(tiny, repeat=3)]
@@ -315,7 +323,7 @@ class C14(Check):
             if tier == "quick":
                 splitsets = [sp for k, sp in enumerate(splitsets) if len(sp) < 2 or k % 5 == 0]
             for sp in splitsets:
-                for gaps in itertools.product(("none", "ping", "pong"), repeat=len(sp)):
+                for gaps in itertools.product(("none", "ping", "pong", "ping125"), repeat=len(sp)):
                     o = run_frag(role, ext, msg, sp, gaps)
                     st.ev()
                     st.transitions += len(sp) + 2
